@@ -61,6 +61,8 @@ def _want(triples):
 def h_roundtrip(n: int, indent: bool, **sym):
     import penman
     triples = _triples(sym, n)
+    from vflib.engine import case
+    case(triples)
     try:
         text = penman.format_triples(triples, indent=indent)
         back = penman.parse_triples(text)
